@@ -32,7 +32,7 @@ ASSUMPTIONS = [
     "fresh sampler objects per run; reuse of an already used sampler object is outside the statement",
     "a run that ends in a third-party exception must end identically in every variant",
 ]
-REQUIRED_COUNTERS = {"models_mutating_their_argument": 5, "models_returning_nonfinite_or_huge": 3, "models_with_uneven_run_time": 2, "base_runs": 30, "variant_njobs": 20, "variant_ctor_seeds": 20, "variant_verbose": 8, "variant_folder": 8,
+REQUIRED_COUNTERS = {"variant_scheduler_ctor_seed": 10, "runs_with_set_samplers_mid_run": 3, "tiny_grid_cases": 3, "models_using_the_global_numpy_generator": 2, "models_mutating_their_argument": 5, "models_returning_nonfinite_or_huge": 3, "models_with_uneven_run_time": 2, "base_runs": 30, "variant_njobs": 20, "variant_ctor_seeds": 20, "variant_verbose": 8, "variant_folder": 8,
                      "variant_fresh_process": 10, "rl_runs": 4}
 SHARDS = {"quick": 16, "thorough": 16}
 SHARD_WATCHDOG = {"quick": 1500, "thorough": 10800}
@@ -91,9 +91,17 @@ def run_case(desc, ctx):
     mutating = i % 5 == 2   # the user's model rearranges its parameter array in place
     extreme = i % 7 == 3 and not mutating    # the model returns inf / 1e300-sized values: non-finite losses enter the history
     slow = i % 9 == 4 and not mutating and not extreme   # task run time varies: parallel tasks finish out of submission order
-    mkind = "mut" if mutating else (str(rng.choice(["inf", "huge"])) if extreme else ("slow" if slow else "plain"))
+    globalrng = i % 11 == 7 and not (mutating or extreme or slow)   # the model seeds and uses numpy's process-global generator
+    tiny = i % 8 == 6 and not rl      # a grid of a few points: de-duplication runs through all its passes (always with the verbose variant)
+    mkind = "mut" if mutating else (str(rng.choice(["inf", "huge"])) if extreme else ("slow" if slow else ("globalrng" if globalrng else "plain")))
     cfg = CG.gen_config(rng, kinds=kinds, scheduler="rl" if rl else None, n_samplers=int(rng.integers(1, 6)), max_bs=3,
-                        model=mkind, params=int(rng.integers(2, 5)) if mutating else None)
+                        model=mkind, params=int(rng.integers(2, 5)) if mutating else None, **({"max_points": 3, "max_params": 2} if tiny else {}))
+    if globalrng:
+        c["models_using_the_global_numpy_generator"] = 1
+    if tiny:
+        c["tiny_grid_cases"] = 1
+    if cfg["scheduler"] in ("rr", "rl") and i % 2 == 0:
+        cfg["sched_ctor_seed"] = None      # base: the user-built scheduler is unseeded; a variant seeds it with the calibrator's own seed
     if extreme:
         c["models_returning_nonfinite_or_huge"] = 1
     if slow:
@@ -112,6 +120,15 @@ def run_case(desc, ctx):
                 cfg["lineup"].insert(pos, G.gen_sampler_desc(rng, k, batch_size=bs))
     nb = int(rng.integers(2, 7 if desc["tier"] == "quick" else 11))
     calls = [nb]
+    if i % 6 == 3 and not rl and nb >= 3:
+        # the line-up is replaced in the middle of the run: the same script with the same seed still gives the same history
+        k_cut = int(rng.integers(1, nb))
+        newl = G.gen_lineup(rng, n=int(rng.integers(1, 4)), kinds=G.HISTORY_FREE + ["BestBatch"], max_bs=2)
+        for d_ in newl:
+            if d_["kind"] == "BestBatch":
+                d_["batch_size"] = 1
+        calls = [k_cut, {"set_samplers": newl}, nb - k_cut]
+        c["runs_with_set_samplers_mid_run"] = 1
     wit = {"config": cfg, "calls": calls}
     base = run(cfg, calls)
     base.pop("cal")
@@ -126,8 +143,11 @@ def run_case(desc, ctx):
     variants.append(("ctor_seeds_shifted", {"ctor_seed_shift": 12345}))
     if i % 2 == 0:
         variants.append(("ctor_seeds_none", {"ctor_seed_shift": None}))
-    if i % 4 == 1:
+    if i % 4 == 1 or tiny:
         variants.append(("verbose", {"verbose": True}))
+    if "sched_ctor_seed" in cfg:
+        variants.append(("scheduler_seeded_like_the_calibrator", {"cfg_override": {"sched_ctor_seed": cfg["seed"]}}))
+        variants.append(("scheduler_seeded_otherwise", {"cfg_override": {"sched_ctor_seed": 987654}}))
     if (i % 4 == 2 or extreme) and not rl:
         fdir = ctx.scratch() / "ck"
         if i % 3 == 0:
@@ -142,10 +162,14 @@ def run_case(desc, ctx):
                 pass
         variants.append(("folder", {"folder": str(fdir)}))
     for name, kw in variants:
-        r = run(cfg, calls, **kw)
+        kw = dict(kw)
+        over = kw.pop("cfg_override", None)
+        r = run(dict(cfg, **over) if over else cfg, calls, **kw)
+        if over:
+            c["variant_scheduler_ctor_seed"] = c.get("variant_scheduler_ctor_seed", 0) + 1
         r.pop("cal")
         out["evals"] += 1
-        key = "variant_njobs" if name.startswith("n_jobs") else "variant_ctor_seeds" if name.startswith("ctor") else f"variant_{name}"
+        key = "variant_njobs" if name.startswith("n_jobs") else "variant_ctor_seeds" if name.startswith("ctor") else ("variant_sched_seed" if name.startswith("scheduler_seeded") else f"variant_{name}")
         c[key] = c.get(key, 0) + 1
         d = compare(base, r)
         if d:
